@@ -22,7 +22,7 @@ _ALL = {
     "C07": {"suites": ["prog", "pcol"], "mask": {"prog": OUT | REC}},
     "C08": {"suites": ["wells", "prog"], "mask": {"prog": OUT | REC}},
     "C09": {"suites": ["params", "prog"], "mask": {"prog": OUT | REC, "params": OUT | REC}},
-    "C10": {"suites": ["params", "evocmd"], "mask": {"params": OUT | REC, "evocmd": OUT | REC}},
+    "C10": {"suites": ["params", "evocmd", "prog"], "mask": {"params": OUT | REC, "evocmd": OUT | REC, "prog": OUT | REC}},
     "C11": {"suites": ["prog"], "mask": {"prog": OUT | HIS | CON}},
     "C12": {"suites": ["sel"]},
     "C13": {"suites": ["evocmd"], "mask": {"evocmd": OUT | REC | VOL | CON}},
